@@ -160,7 +160,7 @@ open Percival.Model.GetoptStep Percival.Proofs.GetoptTables in
 /-- the option tables of `harness/h_getopt.c` are well-formed (they register without dying) -/
 theorem exec_tables_wf : ∀ lines ∈ tables, (tableOf lines).WF := tables_wf
 
-example : Model.GetoptStep.tables.length = 4 := rfl
+example : Model.GetoptStep.tables.length = 9 := rfl
 
 open Percival.Model.GetoptStep Percival.Proofs.GetoptTables in
 /-- **L1 = the model's own reports, from every prior state, and never a failure**: for each table of the harness,
